@@ -80,8 +80,11 @@ Print Assumptions C05_rejects_dup_lists.
    other operands [ins] are well-formed too; stack (new axis name non-empty) and concatenate; and in-place renaming of
    one axis PROVIDED the new name is not the name of another dimension (open finding axis-name-sibling); flatten (the
    grouped axis takes the product length and a name no other dimension has: the constructor refuses it otherwise),
-   reductions over a tuple of axes and percentiles (scalar or list of percentiles, over one axis or a tuple).  Not covered:
-   unflatten / reshape with grouped names (their results are compared with the implementation case by case). *)
+   reductions over a tuple of axes and percentiles (scalar or list of percentiles, over one axis or a tuple); unflatten
+   PROVIDED every grouped axis is consistent ([groups_okb]: its length is the product of its members' lengths, its members
+   are named), which flatten establishes and keeps; reshape with comma-joined names under the same condition and for
+   non-empty member names.  Every operation of the language (Model/Ops.v) is covered, three of them under a decidable side
+   condition evaluated on the state at hand ([covered]). *)
 Theorem C05_step_wf : forall ins o a v, Forall WF ins -> WF a -> covered a o = true -> apply_op ins o a = Ok v -> WFv v.
 Proof. exact apply_op_wf. Qed.
 Print Assumptions C05_step_wf.
@@ -97,6 +100,20 @@ Print Assumptions C05_reduce_any_wf.
 Theorem C05_percentile_wf : forall ins qs scalar kk ax a v, WF a -> apply_op ins (OPercentile qs scalar kk ax) a = Ok v -> WFv v.
 Proof. exact percentile_wf. Qed.
 Print Assumptions C05_percentile_wf.
+Theorem C05_unflatten_wf : forall a r, WF a -> groups_ok a -> unflatten a = Ok r -> WF r.
+Proof. exact unflatten_wf. Qed.
+Print Assumptions C05_unflatten_wf.
+Theorem C05_flatten_groups_ok : forall rs as_set insert a r, WF a -> groups_ok a -> flatten rs as_set insert a = Ok r -> groups_ok r.
+Proof. exact flatten_groups_ok. Qed.
+Print Assumptions C05_flatten_groups_ok.
+Theorem C05_flatten_unflatten_wf : forall rs as_set insert a b r,
+  WF a -> groups_ok a -> flatten rs as_set insert a = Ok b -> unflatten b = Ok r -> WF r.
+Proof. exact flatten_unflatten_wf. Qed.
+Print Assumptions C05_flatten_unflatten_wf.
+Theorem C05_reshape_wf : forall newdims a r,
+  WF a -> groups_ok a -> ~ In "" (flat_map split_commas newdims) -> reshape newdims a = Ok r -> WF r.
+Proof. exact reshape_wf. Qed.
+Print Assumptions C05_reshape_wf.
 (* the side condition on renaming is necessary: the faithful model (like the code) accepts a sibling's name *)
 Theorem C05_rename_sibling_refuted :
   exists a r n v, WF a /\ apply_op [] (ORenameAxis r n) a = Ok (VArr v) /\ wfb v = false.
@@ -144,6 +161,14 @@ Example C05_grouped_nonvacuous :
 Proof.
   split; [vm_compute; reflexivity|]. eexists. split; [vm_compute; reflexivity|]. split; vm_compute; reflexivity.
 Qed.
+Example C05_unflatten_nonvacuous :
+  prog_covered [] [OFlatten [ByName "u"; ByName "t"] false None; OUnflatten] ex3 = true /\
+  exists r, run_ops [] [OFlatten [ByName "u"; ByName "t"] false None; OUnflatten] ex3 = Ok (VArr r) /\ dims r = ["u"; "t"].
+Proof. split; [vm_compute; reflexivity|]. eexists. split; [vm_compute; reflexivity|]. vm_compute; reflexivity. Qed.
+Example C05_reshape_nonvacuous :
+  prog_covered [] [OReshape ["u,t"]; OReshape ["t"; "new,u"]] ex3 = true /\
+  exists r, run_ops [] [OReshape ["u,t"]; OReshape ["t"; "new,u"]] ex3 = Ok (VArr r) /\ dims r = ["t"; "new,u"] /\ sh (vals r) = [3; 2].
+Proof. split; [vm_compute; reflexivity|]. eexists. split; [vm_compute; reflexivity|]. split; vm_compute; reflexivity. Qed.
 Example C05_flatten_nonvacuous :
   exists r, flatten [ByName "u"; ByName "t"] false None ex3 = Ok r /\ dims r = ["u,t"] /\ sh (vals r) = [6].
 Proof. eexists. split; [vm_compute; reflexivity|]. split; vm_compute; reflexivity. Qed.
